@@ -1,4 +1,4 @@
-(* prelude: n *)
+(* prelude: n nat *)
 (* C11 driver: same case lines as harness/src/bin/c11.rs (hook mode; format described there).
    Output: one token per event in the harness' format, then ` | P<first loaded parent id or ->`. *)
 let rd_opt t = if ni t = 1 then Some (n_of_int (ni t)) else None
@@ -68,4 +68,44 @@ let case line =
   let p = match tids with [] -> "-" | i :: _ -> string_of_int (int_of_n i) in
   if List.exists (fun x -> x = OPanic) outs then "panic" else Printf.sprintf "%s | P%s" body p
 
-let () = main_loop case
+(* mode `iter`: `fuel nitems { ncomps comp* node }` -> the items of the modelled TreeIterator *)
+let iter_case line =
+  let t = toks line in
+  let fuel = ni t in
+  let n = ni t in
+  let items = ntimes n (fun () ->
+    let nc = ni t in
+    let p = ntimes nc (fun () -> match ni t with 0 -> CRoot | 1 -> CCur | 2 -> CParent | _ -> CNormal (n_of_int (ni t))) in
+    let nd = rd_node t in
+    { i_path = p; i_node = nd; i_open = None }) in
+  let mt nd = match nd.n_meta.m_mtime with None -> "-" | Some x -> string_of_int (int_of_n x) in
+  match titer (nat_of_int fuel) items with
+  | None -> "diverges"
+  | Some evs ->
+    let tok = function
+      | EvNew (nd, name) -> Printf.sprintf "N:%d:%d:%d:%s" (int_of_n name) (int_of_n nd.n_name) (int_of_n nd.n_meta.m_other) (mt nd)
+      | EvEnd -> "E"
+      | EvOther (nd, _) -> Printf.sprintf "O:%d:%d:%s" (int_of_n nd.n_name) (int_of_n nd.n_meta.m_other) (mt nd) in
+    if evs = [] then "-" else String.concat " " (List.map tok evs)
+
+(* mode `sel`: `force nids id*  gh gl gp gt  me_host me_label  nrepo {id time host label}*` -> ids get_parent selects *)
+let sel_case line =
+  let t = toks line in
+  let force = ni t = 1 in
+  let nids = ni t in
+  let ids = ntimes nids (fun () -> n_of_int (ni t)) in
+  let gh = ni t = 1 in let gl = ni t = 1 in let gp = ni t = 1 in let gt = ni t = 1 in
+  let mk i tm h l = { s_id = n_of_int i; s_time = n_of_int tm; s_host = n_of_int h; s_label = n_of_int l;
+                      s_paths = N0; s_tags = N0; s_tree = n_of_int i } in
+  let mh = ni t in let ml = ni t in
+  let me = mk 0 0 mh ml in
+  let nrepo = ni t in
+  let repo = ntimes nrepo (fun () -> let i = ni t in let tm = ni t in let h = ni t in let l = ni t in mk i tm h l) in
+  let c = { c_host = gh; c_label = gl; c_paths = gp; c_tags = gt } in
+  match select force ids c me repo with
+  | [] -> "-"
+  | l -> String.concat "," (List.map (fun s -> string_of_int (int_of_n s.s_id)) l)
+
+let () =
+  let mode = if Array.length Sys.argv > 2 then Sys.argv.(2) else "" in
+  main_loop (if mode = "iter" then iter_case else if mode = "sel" then sel_case else case)
